@@ -160,6 +160,46 @@ static void check_reconstruct(ctx_t *x, int si, uint32_t present, int p, int des
     pres_free(&pr);
 }
 
+
+/* destination among the supplied fragments: "returned unchanged" means byte-identical to the copy that
+ * was handed in - also when that copy is distinguishable from what this instance would write itself
+ * (variant 1: one payload byte differs, 2: metadata sealed with the historical CRC, 3: checksum-type byte
+ * differs, re-sealed).  All variants keep a header decode/reconstruct accept. */
+static void check_reconstruct_supplied(ctx_t *x, int si, uint32_t present, int p, int dest, int variant)
+{
+    stripe_t *s = &x->st[si];
+    int n = s->n;
+    rng_t r; rng_case(&r);
+    int idx[PRES_MAX];
+    int cnt = pres_indexes(p, present, n, &r, idx);
+    pres_t pr; pres_build(&pr, s, idx, cnt, pres_almode(p), 0, &r);
+    uint8_t *alt = malloc(s->flen); memcpy(alt, s->frag[dest], s->flen);
+    uint64_t P = s->flen - REF_HDR_LEN;
+    if (variant == 1 && P) alt[REF_HDR_LEN + rng_below(&r, (uint32_t)P)] ^= (uint8_t)(1u << rng_below(&r, 8));
+    else if (variant == 2) ref_hdr_reseal(alt, 1);
+    else if (variant == 3) { alt[REF_OFF_CT] = alt[REF_OFF_CT] == CHKSUM_CRC32 ? CHKSUM_NONE : CHKSUM_CRC32; ref_hdr_reseal(alt, 0); }
+    int placed = 0;
+    for (int i = 0; i < cnt; i++) if (idx[i] == dest) { memcpy(pr.ptr[i], alt, s->flen); placed++; }
+    uint8_t *out = malloc(s->flen ? s->flen : 1);
+    memset(out, 0xCD, s->flen);
+    int rc = placed ? liberasurecode_reconstruct_fragment(x->desc, pr.ptr, cnt, s->flen, dest, (char *)out) : 0;
+    mon_count("evaluations", 1); mon_count("reconstruct_calls", 1); mon_count("dest_supplied_altered", placed ? 1 : 0);
+    if (placed) {
+        if (rc != 0) mon_viol(PROP, "reconstruct-supplied-refused", "reconstruct(dest=%d, supplied, variant %d) returned %d", dest, variant, rc);
+        else if (memcmp(out, alt, s->flen)) {
+            uint64_t off = 0; while (out[off] == alt[off]) off++;
+            mon_viol(PROP, "reconstruct-supplied-not-unchanged", "destination %d was among the supplied fragments (variant %d) but byte %llu of the result differs from the supplied copy (got %02x, supplied %02x)",
+                     dest, variant, (unsigned long long)off, out[off], alt[off]);
+        }
+        for (int i = 0; i < cnt; i++) {
+            const uint8_t *want = idx[i] == dest ? alt : s->frag[idx[i]];
+            if (memcmp(pr.ptr[i], want, s->flen)) { mon_viol(PROP, "reconstruct-modified-input", "input fragment %d changed by reconstruct (destination supplied, variant %d)", idx[i], variant); break; }
+        }
+    }
+    free(out); free(alt);
+    pres_free(&pr);
+}
+
 /* ================================================================ C01 */
 static void add_cfgs(cfg_t *cfgs, int *n, int max, int be, int thorough_shapes)
 {
@@ -380,6 +420,16 @@ static void run_reconstruct(int which)
                             mon_sample("{\"config\":\"%s\",\"len\":%llu,\"erased\":\"%s\",\"destination\":%d,\"presentation\":\"%s\",\"legacy_crc\":%d}",
                                        x.ck, (unsigned long long)x.st[si].len, em, d, pres_name[p], legacy);
                         mon_end();
+                    }
+                    /* supplied destination that is distinguishable from what this instance would write */
+                    if (!erased && (e + d) % 3 == 0) {
+                        int variant = 1 + (e / 3 + d) % 3;
+                        int pp = p == 3 || p == 4 ? 2 : p;       /* no duplicates: "the supplied copy" must be unique */
+                        if (mon_case("%s|len=%llu|E=%s|pres=%s|dest=%d|supplied-variant=%d", x.ck, (unsigned long long)x.st[si].len, em, pres_name[pp], d, variant)) {
+                            check_reconstruct_supplied(&x, si, present, pp, d, variant);
+                            mon_distinct("nontrivial", mon_hash_u64(es[e] * 4 + (uint64_t)variant, mon_hash_str(x.ck, (uint64_t)d + 1000)));
+                            mon_end();
+                        }
                     }
                 }
                 /* rejection clause: out-of-range destinations */
@@ -828,11 +878,14 @@ static void run_canonical(void)
     for (int ci = 0; ci < nc; ci++) {
         if (!MO.thorough && (ci % 4) != (int)(MO.seed % 4) && cfgs[ci].k + cfgs[ci].m != 32 && cfgs[ci].k != 1 && cfgs[ci].m != 1) continue;
         cfg_t c = cfgs[ci]; c.ct = CHKSUM_NONE;
-        uint64_t lens[4] = { (uint64_t)c.k * 2 * 9, (uint64_t)c.k * 2 * 40 - 1, 1 + (uint64_t)c.k, 4096 };
-        int kinds[4] = { DATA_RANDOM, DATA_HIGH, DATA_FF, DATA_RANDOM };
+        uint64_t lens[MAXSTR] = { (uint64_t)c.k * 2 * 9, (uint64_t)c.k * 2 * 40 - 1, 1 + (uint64_t)c.k, 4096 };
+        int kinds[MAXSTR] = { DATA_RANDOM, DATA_HIGH, DATA_FF, DATA_RANDOM };
+        int nl = 4;
+        nl += payload_sweep_lengths(&c, lens + nl, kinds + nl, MAXSTR - nl - 1);
+        if (ci % 7 == (int)(MO.seed % 7) || MO.thorough) { lens[nl] = (uint64_t)c.k * (65536 + 2 * (uint64_t)(ci % 9)) - 1; kinds[nl] = DATA_RANDOM; nl++; }   /* > 64 KiB per fragment */
         ctx_t x;
         PROP = "C04";
-        if (ctx_open(&x, &c, lens, kinds, MO.thorough ? 4 : 2) == 0) {
+        if (ctx_open(&x, &c, lens, kinds, nl) == 0) {
             for (int si = 0; si < x.nstr; si++) {
                 if (mon_case("%s|len=%llu|parity-vs-model", x.ck, (unsigned long long)x.st[si].len)) {
                     stripe_t *s = &x.st[si];
